@@ -130,6 +130,8 @@ def main():
     harness_errors = []
     os.makedirs(os.path.join(HERE, 'evidence', 'replays'), exist_ok=True)
     pending_weak = []
+    t_replay0 = time.time()
+    replay_budget_s = 420 if a.tier == 'quick' else 900
     for res in results:
         st = res['status']
         counts[st] = counts.get(st, 0) + 1
@@ -138,10 +140,13 @@ def main():
         if st != 'violated':
             continue
         # replay on the real code, natively, before believing the solver
-        try:
-            ok, detail = safe_replay(res['spec'], res['params'], res['model'])
-        except Exception as e:
-            ok, detail = None, 'replay crashed: %r' % (e,)
+        if time.time() - t_replay0 > replay_budget_s:
+            ok, detail = None, 'UNCONFIRMED: replay budget of %ds for this run exhausted (solver counterexample not yet confirmed on the real code)' % replay_budget_s
+        else:
+            try:
+                ok, detail = safe_replay(res['spec'], res['params'], res['model'])
+            except Exception as e:
+                ok, detail = None, 'replay crashed: %r' % (e,)
         if ok is None and str(detail).startswith('UNCONFIRMED'):
             # abstract alarm (stub-based obligation) that the dynamic replay could not reproduce: inconclusive, never a violation
             res['status'] = 'inconclusive'
